@@ -28,7 +28,7 @@ MANIFEST = {
                  "go/parser + go/types + gc",
 }
 
-RULE = ("stream V: every sugar piece alone (35, incl. literal spellings and type expressions) + N random combinations of 1-4 pieces (quick 600, thorough 3000), all valid by construction; "
+RULE = ("stream V: every sugar piece alone (37, incl. literal spellings, type expressions, multi-file packages with test files, errwrap arities 0..4) + N random combinations of 1-4 pieces (quick 600, thorough 3000), all valid by construction; "
         "stream M: fixed list of 7000 packages (427 one-rule-violated programs, then every 4th a corpus package of /repo as is, the others near-miss mutants by 16 mutation kinds "
         "of generated programs and corpus), quick = first 1500, thorough = all; non-trivial = parsed and handed to cl.NewPackage; distinct = "
         "distinct file set")
